@@ -5,7 +5,7 @@ use std::sync::atomic::Ordering;
 use std::sync::{Arc, Mutex};
 
 pub fn run() -> i32 {
-    let base = Policy { prefix: vec![], max_steps: 2000, yield_on_unbounded_send: true, cap_override: None };
+    let base = Policy { prefix: vec![], max_steps: 2000, yield_on_unbounded_send: true, cap_override: None, descending: false };
     // two producers send 2 messages each over one unbounded channel; the consumer records the arrival order
     let orders = Arc::new(Mutex::new(std::collections::BTreeSet::new()));
     let o2 = orders.clone();
